@@ -101,6 +101,7 @@ class Function:
         if self.has_cfg:
             for b in d['blocks']:
                 self.blocks[b['id']] = Block(b)
+            self._drop_assert_branches()
             for b in self.blocks.values():
                 for s in b.succs:
                     if s >= 0 and s in self.blocks:
@@ -124,6 +125,30 @@ class Function:
         self.pnames = dd.get('pnames', [])
         self.key = '%s(%s)' % (self.qname, ','.join(self.cptypes)) + ('<%s>' % self.targs if self.targs else '') + \
                    (' const' if self.is_const else '')
+
+    # ------------------------------------------------------------ assertions
+    ASSERT_FAIL = ('__assert_fail', '__assert_perror_fail', '__assert', '__assert_rtn', '_wassert')
+
+    def _drop_assert_branches(self):
+        """`assert(c)` expands to a branch whose failing arm calls a noreturn reporting function.  An assertion states
+        something the author holds to be always true; it is not a condition under which the rest of the function runs.
+        The branch is read as unconditional (the failing arm becomes unreachable), so no rule sees the code after an
+        assertion as control dependent on it."""
+        fail_blocks = set()
+        for bid, b in self.blocks.items():
+            for e in b.elems:
+                n = self.nodes[e]
+                if n['k'] == 'CallExpr' and 'callee' in n and n['callee'] >= 0 and \
+                        self.unit.decls[n['callee']].get('name') in self.ASSERT_FAIL:
+                    fail_blocks.add(bid)
+        if not fail_blocks:
+            return
+        for b in self.blocks.values():
+            live = [s for s in b.succs if s is not None and s >= 0]
+            if len(live) == 2 and any(s in fail_blocks for s in live) and not all(s in fail_blocks for s in live):
+                keep = [s for s in live if s not in fail_blocks][0]
+                b.succs = [keep]
+        self.assert_fail_blocks = fail_blocks
 
     # ------------------------------------------------------------ loop normalisation
     def _normalise_iterator_loops(self):
